@@ -17,6 +17,7 @@ import (
 	"fmt"
 	"os"
 	"path/filepath"
+	"runtime/debug"
 	"sort"
 	"strconv"
 	"strings"
@@ -317,4 +318,38 @@ func (r *Run) Finish() {
 	fmt.Printf("%s %s seed=%d: evaluations=%d distinct_nontrivial=%d new_violations=%d known_hit=%d wall=%.1fs\n",
 		r.ID, r.Tier, r.Seed, r.evals, len(r.distinct), newViol, len(knownHit), time.Since(r.start).Seconds())
 	os.Exit(exit)
+}
+
+// Guard is deferred by drivers around code that calls the library directly: a panic that passes through go-restli
+// frames is a violation (with the stack as witness), any other panic is a fault of the harness (inconclusive).
+// Either way the evidence is written and the process exits through Finish.
+func (r *Run) Guard() {
+	p := recover()
+	if p == nil {
+		return
+	}
+	st := string(debug.Stack())
+	frame := "?"
+	for _, l := range strings.Split(st, "\n") {
+		l = strings.TrimSpace(l)
+		if strings.Contains(l, "PapaCharlie/go-restli") && strings.Contains(l, "(") && !strings.HasPrefix(l, "/") && !strings.HasPrefix(l, "github.com/PapaCharlie/go-restli@") {
+			if i := strings.LastIndex(l, "("); i > 0 {
+				l = l[:i]
+			}
+			if j := strings.LastIndex(l, "/"); j >= 0 {
+				l = l[j+1:]
+			}
+			frame = l
+			break
+		}
+	}
+	if len(st) > 4000 {
+		st = st[:4000]
+	}
+	if frame != "?" {
+		r.Violation("panic-in-library/"+frame, map[string]any{"panic": fmt.Sprint(p), "stack": st})
+	} else {
+		r.Inconclusive(fmt.Sprintf("driver panicked outside library code: %v\n%s", p, st))
+	}
+	r.Finish()
 }
